@@ -1832,6 +1832,7 @@ def tables_c14(run):
         ('super_pose:SMPose.norm', '2D objects normalise with trnorm2', ['self.__class__([trnorm2(x) for x in self.data])'], 'any'),
         ('super_pose:SMPose.norm', '3D objects normalise with trnorm', ['self.__class__([trnorm(x) for x in self.data])'], 'any'),
         ('quaternion:Quaternion.unit', 'unit quaternion of every element', ['UnitQuaternion([unit(q._A) for q in self], norm=False)'], 'return'),
+        ('twist:SMTwist.unit', 'twist unit through unittwist / unittwist2', ['Twist2(unittwist2(self.S))', 'Twist3(unittwist(self.S))'], 'return'),
     ], rule=RULE)
 
 
@@ -2072,3 +2073,63 @@ def tables_c04(run):
     want = {':2, :2': 'x.A[:2, :2]', ':2, 3': 'x.A[:2, 2]', '2, 3': 'z'}
     ok = alloc is not None and matches('eye(4)', alloc) is not None and tbl == want
     (run.holds if ok else run.violation)(rule, g.key, 'lift table', 'y = eye(4); rotation block, translation column, z' if ok else 'SE2 -> SE3 lift writes %s, expected %s on eye(4)' % (tbl, want), f=g)
+
+
+# =========================================================================== information dependence (logarithm branches)
+def check_trlog_dependence(run, rule='R17'):
+    """In every value-returning path of the rotation part of trlog the returned axis depends on OFF-DIAGONAL entries of R
+    (the direction of the rotation axis, including the relative signs of its components, is not determined by the
+    diagonal / the trace of a rotation matrix alone)."""
+    cx = Ctx(run, 'base/transforms3d:trlog')
+    f = cx.f
+    fi = cx.fi
+    # the rotation branch: statements under `elif isrot(T, check=check)`
+    block = None
+    for st in own_walk(f.node):
+        if isinstance(st, ast.If):
+            node_if = st
+            while True:
+                if 'isrot(' in ast.unparse(node_if.test):
+                    block = node_if.body
+                if len(node_if.orelse) == 1 and isinstance(node_if.orelse[0], ast.If):
+                    node_if = node_if.orelse[0]
+                else:
+                    break
+    if block is None:
+        run.error('R17: trlog: SO(3) branch not found')
+        return
+    rets = sl_eval(cx, block)
+    n = 0
+    for (r, e) in rets:
+        if matches('zeros(__)', e) is not None:
+            continue
+        n += 1
+        offdiag = False
+        diag_only_reads = []
+        for y in ast.walk(e):
+            if isinstance(y, ast.Subscript) and isinstance(y.value, ast.Name) and y.value.id in ('R', 'T'):
+                sl = y.slice
+                if isinstance(sl, ast.Tuple) and len(sl.elts) == 2:
+                    a, b = sl.elts
+                    if isinstance(a, ast.Constant) and isinstance(b, ast.Constant):
+                        if a.value != b.value:
+                            offdiag = True
+                        else:
+                            diag_only_reads.append(ast.unparse(y))
+                    else:
+                        offdiag = True     # a row/column slice
+                else:
+                    offdiag = True
+            elif isinstance(y, ast.Attribute) and y.attr == 'T' and isinstance(y.value, ast.Name) and y.value.id in ('R', 'T'):
+                offdiag = True
+            elif isinstance(y, ast.BinOp) and isinstance(y.op, ast.Sub) and 'R' in ast.unparse(y.left) and '.T' in ast.unparse(y.right):
+                offdiag = True
+        construct = 'axis of ' + src(r.value, 40)
+        if offdiag:
+            run.holds(rule, f.key, construct, 'the returned logarithm reads off-diagonal entries of R', f=f, node=r)
+        else:
+            run.violation(rule, f.key, construct, 'on this path the rotation axis is computed from the diagonal / trace of R only (%s): '
+                          'the relative signs of the axis components are not determined by the diagonal, so a half-turn about an axis '
+                          'with components of opposite sign is mapped to the wrong axis' % src(e, 70), f=f, node=r)
+    if n < 4:
+        run.error('R17: trlog: only %d non-trivial returns evaluated in the SO(3) branch (expected >= 4)' % n)
